@@ -131,6 +131,9 @@ func Load(config, dir string) (*Program, error) {
 	if n < 9 {
 		return nil, fmt.Errorf("load %s: only %d of the 9 library packages found in %s", config, n, dir)
 	}
+	for _, f := range Prepare {
+		f(p)
+	}
 	return p, nil
 }
 
@@ -215,6 +218,9 @@ func (p *Program) Func(short, name string) *ast.FuncDecl {
 	}
 	return p.DeclOf(f)
 }
+
+// Prepare holds analyses that run once per loaded program, before any rule (role inference shared by rules).
+var Prepare []func(*Program)
 
 // Funcs returns every function declaration of a package, sorted by position.
 func (p *Program) Funcs(short string) []*ast.FuncDecl {
